@@ -34,6 +34,7 @@ def decByName (t : String) (b : Bytes) : Option String :=
   | "vec_varint" => some (showDec b (encVec encVarint) (vec sizes.varint varint b))
   | "vec_key" => some (showDec b (encVec id) (vec sizes.key key b))
   | "vec_u8" => some (showDec b (encVec (fun x => [x])) (vec sizes.u8 u8 b))
+  | "string" => some (showDecL b encString lenString (stringDec (fun bs => (String.fromUTF8? (ByteArray.mk bs.toArray)).isSome) b))
   | "vec_txin" => some (showDec b (encVec encTxIn) (vec sizes.txin txin b))
   | "vec_txout" => some (showDec b (encVec encTxOut) (vec sizes.txout txout b))
   | _ => none
